@@ -39,7 +39,7 @@ def fmtArea {β} (fmt : β → String) (a : AreaGrid β) : String :=
   s!"ok {fmtIntList a.keys} {fmtList (a.weights.map fmt)} {a.rowStart} {a.rowEnd} {a.colStart} {a.colEnd} " ++
   s!"{fmt a.xll} {fmt a.yll} {a.nrows} {a.ncols} {fmtMatS (a.data.map fun r => r.map fmt)}"
 
-def errName : Err → String
+def errName : C16.Err → String
   | .noOverlap => "err:noOverlap"
   | .noPoints => "err:noPoints"
 
